@@ -127,6 +127,15 @@ def classify(prop, clause, detail, case):
     for ent in load().get("open", []):
         if prop not in ent.get("properties", [ent.get("property")]):
             continue
+        if ent["predicate"] == "F8":
+            # np.load/zipfile locate the archive by searching backwards for an end-of-central-directory record; a prefix that
+            # still contains a *complete inner archive inside a member's payload* (adversarial table contents) is accepted as
+            # that inner archive.  Matched only when the harness itself embedded such an archive and the record found in the
+            # prefix lies before the file's own record (so a file whose own tail is tolerated - trailing comment, padding -
+            # is NOT this finding).
+            if clause == "prefix-must-raise" and (detail or {}).get("embedded_archive_in_payload") is True:
+                return {"id": ent["id"], "what": ent["what"]}
+            continue
         if ent["predicate"] == "F4":
             cfg = (detail or {}).get("cfg") or ((case or {}).get("cfg") if isinstance(case, dict) else None)
             if clause in _F4_CLAUSES and f4_matches(cfg, (detail or {}).get("base")):
